@@ -37,7 +37,7 @@ MIRRORED = {
     ('michelson/types/map.py', 'MapType', 'to_python_object'): '0c5514a76a676725',
     ('michelson/types/big_map.py', 'BigMapType', 'from_python_object'): 'ad4e8d49076bd14c',
     ('michelson/types/big_map.py', 'BigMapType', 'to_python_object'): '8bd8ab1282448eb5',
-    ('michelson/types/core.py', 'StringType', 'from_value'): '3cb74e6ced1105f2',
+    ('michelson/types/core.py', 'StringType', 'from_value'): 'ec0a5e1747e8308d',     # ASCII + printable-or-newline (45078c3) = 
     ('michelson/types/core.py', 'StringType', 'from_python_object'): 'f862d4003e66262b',
     ('michelson/types/core.py', 'StringType', 'to_python_object'): '7f5d4d09a4d6a552',
     ('michelson/types/core.py', 'IntType', 'from_python_object'): '39c3363934773c55',
